@@ -27,9 +27,10 @@ from harness.armi_env import armi_ready
 
 MODDIR = os.path.join(common.SPEC, "xs")
 MERGE_ACTIONS = ("Merge", "MergeRefused")
-# the exception classes of the three refusals (Property, Metadata, Overlap in the specification).  ValueError: comparing the per-nuclide PMATRX metadata of two entries of one
-# label that both carry activation cross sections (lists of arrays) trips numpy's "truth value is ambiguous" inside
-# properties.numpyHackForEqual -- an accidental exception class, but the overlap IS rejected, which is all the statement asks
+# the exception classes of the three refusals (Property, Metadata, Overlap in the specification).  ValueError: comparing the
+# per-nuclide PMATRX metadata of two entries of one label that both carry activation cross sections (lists of arrays) trips
+# numpy's "truth value is ambiguous" inside properties.numpyHackForEqual -- an accidental exception class, but the overlap
+# IS rejected, which is all the statement asks
 REFUSAL_CLASSES = ("ImmutablePropertyError", "OSError", "AttributeError", "ValueError")
 NPROC = 4            # processes replaying merge edges
 _THIS = __import__("sys").modules[__name__]
